@@ -55,7 +55,10 @@ def taste_cli(mods, ref, opts, limit, nofail, ctx):
     return ('good' if bool(built[-1]) else 'bad'), buf.getvalue()[-300:], fs
 
 
-def taste_once(mods, ref, opts, limit, nofail, ctx, mutate=None, schedule=None, prior=None, verbose=None):
+SPELLINGS = ['plt/', '/work/plt', '/work/plt/', './plt', '../work/plt', 'plt//']
+
+
+def taste_once(mods, ref, opts, limit, nofail, ctx, mutate=None, schedule=None, prior=None, verbose=None, spell='plt'):
     """Returns (outcome, detail): outcome in 'good', 'bad', 'raised'."""
     Taster = mods['amr_kitchen.taste.taste'].Taster
     fs = SymFS()
@@ -71,7 +74,7 @@ def taste_once(mods, ref, opts, limit, nofail, ctx, mutate=None, schedule=None, 
             except Exception:
                 pass
         try:
-            t = Taster('plt', limit_level=limit, binary_headers=opts[0], binary_shape=opts[1], binary_data=opts[2],
+            t = Taster(spell, limit_level=limit, binary_headers=opts[0], binary_shape=opts[1], binary_data=opts[2],
                        boxes_coordinates=opts[3], nofail=nofail, **({} if verbose is None else {'verbose': verbose}))
             ok = bool(t)
         except Exception as e:
@@ -132,6 +135,26 @@ def run_case(case):
             res.add_obl(obl)
             if obl.failed and 'C03/verbose' not in viol:
                 viol['C03/verbose'] = {'signature': 'C03/verbose', 'what': obl.failed[0][0], 'opts': list(opts), 'limit': limit, 'nofail': nofail, 'verbose': verbose}
+    # the same plotfile under other spellings of its path (trailing separator, absolute, dotted); cwd is /work
+    for spell in SPELLINGS:
+        for opts, limit, nofail in [((True, True, True, True), None, False), ((False, False, False, False), 0, True)]:
+            def spath(ctx, spell=spell, opts=opts, limit=limit, nofail=nofail):
+                obl = Obl(ctx)
+                outcome, detail, _ = taste_once(mods, ref, opts, limit, nofail, ctx, spell=spell)
+                obl.total += 1
+                if outcome == 'good':
+                    obl.trivial += 1
+                else:
+                    obl.failed.append(('Taster(%r, headers=%s, shape=%s, data=%s, coords=%s, limit=%s, nofail=%s) on a well-formed plotfile: %s (%s)'
+                                       % ((spell,) + opts + (limit, nofail, outcome, detail.strip().splitlines()[-1] if detail.strip() else '')), None))
+                return obl
+            results, exhaustive, stats = core.explore(spath, max_paths=64)
+            res.add_explore(results, exhaustive, stats)
+            nruns += 1
+            for ctx, obl in results:
+                res.add_obl(obl)
+                if obl.failed and 'C03/path-spelling' not in viol:
+                    viol['C03/path-spelling'] = {'signature': 'C03/path-spelling', 'what': obl.failed[0][0], 'opts': list(opts), 'limit': limit, 'nofail': nofail, 'spell': spell}
     # the command line: every switch flipped, the defaults, data check alone - failing and non-failing mode
     for opts, limit, nofail in [((False, False, True, True), None, False), ((True, True, False, False), ref.nlev - 1, True), ((True, False, True, False), 0, False),
                                 ((False, True, False, True), None, True)]:
@@ -204,6 +227,9 @@ def run_case(case):
                "with contextlib.redirect_stdout(io.StringIO()):\n" + pre +
                "    t = Taster(os.path.join(IN, 'plt'), limit_level=%r, binary_headers=%r, binary_shape=%r, binary_data=%r, boxes_coordinates=%r, nofail=%r%s)\n"
                "RESULT = 1.0 if bool(t) else 0.0\n" % (v['limit'], o[0], o[1], o[2], o[3], v['nofail'], '' if v.get('verbose') is None else ', verbose=%r' % v['verbose']))
+        if v.get('spell'):
+            run = run.replace("from amr_kitchen", "os.chdir(IN)\nSPELLED = %r.replace('../work', '../' + os.path.basename(IN)).replace('/work', IN)\nfrom amr_kitchen" % v['spell'], 1)
+            run = run.replace("t = Taster(os.path.join(IN, 'plt')", "t = Taster(SPELLED")
         if v.get('cli'):
             run = ("import sys, contextlib, io\nfrom amr_kitchen.taste import cli\nbuilt = []\nReal = cli.Taster\n"
                    "def spy(*a, **k):\n    t = Real(*a, **k)\n    built.append(t)\n    return t\n"
@@ -254,7 +280,7 @@ def main():
     rep = common.Report('C03')
     common.clear_replays('C03')
     rep.rule = ('one case = one generated well-formed plotfile structure (incl. scattered / non-monotone layouts); per case the real Taster runs '
-                'for all 16 option combinations x level limits x {nofail, fail}; distinct = (case, options, limit, mode)')
+                'for all 16 option combinations x level limits x {nofail, fail}, plus six other spellings of the path (trailing separator, absolute, dotted) for two option sets; distinct = (case, options, limit, mode)')
     rep.assumptions = ['payload is real-valued (NaN/Inf outside for the binary_data option); min/max rows equal the true extrema of the payload',
                        'geometry constants are dyadic, so the box-coordinate comparison is exact']
     rep.bounds = {'levels': '1-3', 'boxes_per_level': '1-4', 'fields': '1-4', 'files_per_level': '1-3'}
